@@ -26,7 +26,7 @@ from collections.abc import Generator
 from typing import TYPE_CHECKING, Any, Generic, final
 
 from .._typevars import _T_ReceivedPacket, _T_SentPacket
-from ..exceptions import StreamProtocolParseError
+from ..exceptions import IncrementalDeserializeError, StreamProtocolParseError
 from ..protocol import AnyStreamProtocolType, BufferedStreamProtocol, StreamProtocol
 from ._final import runtime_final_class
 
@@ -183,7 +183,13 @@ class BufferedStreamDataConsumer(Generic[_T_ReceivedPacket]):
             self.__save_remainder_in_buffer(remaining)
             return packet
         except StreamProtocolParseError as exc:
-            self.__save_remainder_in_buffer(exc.remaining_data)
+            # remaining_data can be a view to the wrapped buffer, which is about to be overwritten:
+            # the exception must carry its own copy.
+            remaining = bytes(exc.remaining_data)
+            exc.remaining_data = remaining
+            if isinstance(exc.error, IncrementalDeserializeError):
+                exc.error.remaining_data = bytes(exc.error.remaining_data)
+            self.__save_remainder_in_buffer(remaining)
             raise
         except Exception as exc:
             # Reset buffer, since we do not know if the buffer state is still valid
